@@ -51,7 +51,7 @@ PROPS['C19'] = dict(
 )
 
 PROPS['C18'] = dict(
-    bin='c18', sources=['props/c18.cc', 'sim/harness.cc'], unit_objs=UNIT, engine='rc',
+    bin='c18', sources=['props/c18.cc', 'sim/harness.cc', 'sim/scenario.cc', 'ref/refdns.cc', 'ref/refmisc.cc', 'ref/refproto.cc'], unit_objs=UNIT, images=['srv', 'cli0', 'cli1', 'cli2'], engine='rc',
     enum_parts=8, exhaustive_claim=True,
     quick=dict(workers=4, cases=20000, budget=40, min_nontrivial=1000, enum_arg=1),
     thorough=dict(workers=8, cases=2000000, budget=600, min_nontrivial=50000, enum_arg=2),
@@ -59,7 +59,7 @@ PROPS['C18'] = dict(
          '{first 20, last 4, middle, random}, per-slot liveness pattern); oracle = statement computed in host byte '
          'order: count = min(16, size-3), addresses distinct / in subnet / not server, network or broadcast, lookup '
          'returns the slot iff active+authenticated+seen<60s, -1 for server/network/broadcast/unassigned. non-trivial iff '
-         'the server sits within the first 18 host positions (skip logic exercised) or the subnet has <= 32 addresses; '
+         'the server sits within the first 18 host positions (skip logic exercised) or the subnet has <= 32 addresses; 1 case in 3 is a history: slots are handed out by find_available_user, logged in, refreshed, left silent for 1..70 s and handed out again; after every step each tunnel address must resolve to its slot exactly when the slot\'s current session is logged in and was active within 58 s (never when unused, not logged in or silent >= 62 s), and a slot active within 58 s is never handed out; '
          'distinct = hash of (mask, base, position) / choice tape',
     exhaustive_text='every host position (incl. network and broadcast positions) for 10.0.0.0/20../21 (quick) or /16../21 (thorough) and for 7 bases x /22../30; '
                     '14 boundary positions for every other (mask, base) pair',
@@ -89,15 +89,16 @@ PROPS['C17'] = dict(
     assumptions=['query names never contain empty labels (the name reader cannot produce them)'],
 )
 
+IMGS_EARLY = ['srv', 'cli0', 'cli1', 'cli2']
 PROPS['C08'] = dict(
-    bin='c08', sources=['props/c08.cc', 'sim/harness.cc', 'ref/refmisc.cc', 'ref/refdns.cc'], unit_objs=UNIT, engine='rc',
+    bin='c08', sources=['props/c08.cc', 'sim/harness.cc', 'sim/scenario.cc', 'sim/monitors.cc', 'ref/refmisc.cc', 'ref/refdns.cc', 'ref/refproto.cc'], unit_objs=UNIT, images=IMGS_EARLY, engine='rc',
     enum_parts=12, exhaustive_claim=True,
     quick=dict(workers=4, cases=40000, budget=40, min_nontrivial=1000, enum_arg=1),
     thorough=dict(workers=4, cases=2000000, budget=600, min_nontrivial=50000, enum_arg=2),
     rule='case = (L 100..255, valid tunnel domain of a chosen length 3..min(128,L-24) in three label layouts, codec, header '
          'length 1 or 5, payload 1..2048 bytes from 6 content classes, plain or wildcard server domain); the name is built '
          'by build_hostname in the client call shape, sent through dns_encode, parsed by the strict reference parser, decoded '
-         'by dns_decode, matched by query_datalen and extracted by unpack_data in the server call shape. non-trivial iff the '
+         'by dns_decode, matched by query_datalen and extracted by unpack_data in the server call shape; 1 case in 41 is a system case: the REAL client with a generated -M / codec / type / autoprobed fragment size runs against the real server over simnet and every name it passes to sendto() (version, login, codec tests, fragment-size probes, pings, data) must be <= -M characters and under the domain. non-trivial iff the '
          'chunk truncates the payload, or the encoded length is a multiple of 57, or L / domain length is at an extreme',
     exhaustive_text='every L in 100..255 x every domain length 3..min(128,L-24) x 4 codecs x payload lengths '
                     '{1,2,block-1,block,block+1,cap-1,cap,cap+1,2048}; header 1 or 5 (both in thorough)',
